@@ -242,36 +242,52 @@ func (e *Engine) callFunc(fr *frame, ins ssa.Instruction, fn *ssa.Function, args
 	if e.callLog == nil {
 		e.callLog = map[string]*callRecord{}
 	}
-	rec := &callRecord{called: reach, ret: ret, resT: resT, args: append([]Val{}, args...)}
-	for _, p := range fn.Params {
-		rec.argT = append(rec.argT, p.Type())
-	}
-	if ins != nil && ins.Block() != nil && e.innermost(fr, ins.Block()) != nil {
-		rec.inLoop = true
-	}
-	if prev := e.callLog[name]; prev != nil && !rec.inLoop && !prev.inLoop && len(prev.args) == len(rec.args) {
-		// a later call on another path: the record is the one of the call that was executed last
-		rec.called = e.sc.define("called", SBool, or(prev.called, reach))
-		merged := func() (ok bool) {
-			defer func() {
-				if r := recover(); r != nil {
-					ok = false
-				}
-			}()
-			if ret != nil && prev.ret != nil {
-				rec.ret = e.iteVal(reach, ret, prev.ret)
-			}
-			for i := range rec.args {
-				rec.args[i] = e.iteVal(reach, rec.args[i], prev.args[i])
-			}
-			return true
-		}()
-		if !merged {
-			// values that cannot be merged (interior pointers): the record is unusable in clauses
-			rec.inLoop = true
+	// a method is recorded under its plain name and under "Type.Method" (for functions under
+	// contract that call two methods of the same name)
+	keys := []string{name}
+	if recv := fn.Signature.Recv(); recv != nil {
+		t := recv.Type()
+		if p, ok := t.(*types.Pointer); ok {
+			t = p.Elem()
+		}
+		if n, ok := t.(*types.Named); ok {
+			keys = append(keys, n.Obj().Name()+"."+name)
 		}
 	}
-	e.callLog[name] = rec
+	inLoop := ins != nil && ins.Block() != nil && e.innermost(fr, ins.Block()) != nil
+	for _, key := range keys {
+		rec := &callRecord{called: reach, ret: ret, resT: resT, args: append([]Val{}, args...), inLoop: inLoop}
+		for _, p := range fn.Params {
+			rec.argT = append(rec.argT, p.Type())
+		}
+		if prev := e.callLog[key]; prev != nil && !rec.inLoop && !prev.inLoop && len(prev.args) == len(rec.args) {
+			// a later call on another path: the record is the one of the call that was executed last
+			rec.called = e.sc.define("called", SBool, or(prev.called, reach))
+			merged := func() (ok bool) {
+				defer func() {
+					if r := recover(); r != nil {
+						ok = false
+					}
+				}()
+				if ret != nil && prev.ret != nil {
+					rec.ret = e.iteVal(reach, ret, prev.ret)
+				}
+				for i := range rec.args {
+					rec.args[i] = e.iteVal(reach, rec.args[i], prev.args[i])
+				}
+				return true
+			}()
+			if !merged {
+				// values that cannot be merged (interior pointers): the record is unusable in clauses
+				rec.inLoop = true
+			}
+		} else if prev != nil && len(prev.args) != len(rec.args) {
+			// two different callees share this key (methods of the same name on different types):
+			// the plain name is ambiguous and unusable, the qualified keys are not
+			rec.inLoop = true
+		}
+		e.callLog[key] = rec
+	}
 	return ret, r
 }
 
@@ -289,7 +305,7 @@ func (e *Engine) callLogOf(cc *ssa.CallCommon, ghost string) (*callRecord, strin
 	name := constant.StringVal(c.Value)
 	rec := e.callLog[name]
 	if rec != nil && rec.inLoop {
-		fail("%s(%q): the call is inside a loop, or its values on different paths cannot be merged", ghost, name)
+		fail("%s(%q): the call is inside a loop, its values on different paths cannot be merged, or the name denotes two different callees (use Type.Method)", ghost, name)
 	}
 	return rec, name
 }
@@ -360,8 +376,16 @@ func (e *Engine) callFunc0(fr *frame, ins ssa.Instruction, fn *ssa.Function, arg
 		return Sc{eq(e.scalar(args[0]).T, e.scalar(args[1]).T), SBool}, reach
 	case "vcWriteCount":
 		t := bvLit(0, 64)
+		if e.calleeWrites != "" {
+			// inside the postcondition of a callee taken by contract: the callee's own writes
+			return Sc{e.calleeWrites, SI64}, reach
+		}
 		for _, w := range e.ghostWrites {
-			t = app("bvadd", t, ite(w.cond, bvLit(1, 64), bvLit(0, 64)))
+			n := bvLit(1, 64)
+			if w.n != "" {
+				n = w.n
+			}
+			t = app("bvadd", t, ite(w.cond, n, bvLit(0, 64)))
 		}
 		return Sc{e.sc.define("wcount", SI64, t), SI64}, reach
 	case "vcWritten":
@@ -683,9 +707,25 @@ func (e *Engine) callByContract(fr *frame, ins ssa.Instruction, fn *ssa.Function
 	calleeLogged := e.sc.declare("callee_logged", SBool)
 	saveFlag := e.calleeLogFlag
 	e.calleeLogFlag = calleeLogged
+	// likewise vcWriteCount() inside the callee's postconditions counts the callee's own writes to
+	// files: a fresh non-negative number, added afterwards to the caller's count
+	saveCW := e.calleeWrites
+	cw := ""
+	for _, cl := range c.byKind("ensures") {
+		if strings.Contains(cl.Expr, "vcWriteCount()") {
+			cw = e.sc.declare("callee_writes", SI64)
+			e.sc.assume(and(app("bvsge", cw, bvLit(0, 64)), app("bvsle", cw, bvLit(1<<20, 64))))
+			break
+		}
+	}
+	e.calleeWrites = cw
 	defer func() {
 		e.calleeLogFlag = saveFlag
 		e.ghostEvent("logerror", and(reach, calleeLogged), "")
+		e.calleeWrites = saveCW
+		if cw != "" && !e.pure && len(e.sc.binders) == 0 {
+			e.ghostWrites = append(e.ghostWrites, ghostWriteRec{cond: reach, n: cw})
+		}
 	}()
 	for _, cl := range c.byKind("ensures") {
 		if usesCallLog(cl.Expr) || strings.HasPrefix(cl.Label, "I.") {
